@@ -331,8 +331,10 @@ func c16Irrigation(p *Prog, r *Report) {
 		k2 := stripCondVersions(mkCmp(stage, cellP("GlobalVarsMain.IRRST2", akf).Add(PInt(1)), token.LSS, nil))
 		kA := "?GlobalVarsMain.AUTOIRRI"
 		kS := stripCondVersions(mkCmp(PAtom(day.Var), cellP("GlobalVarsMain.SAAT", akf), token.GTR, nil))
-		ok := hasKey(ks, k1) && hasKey(ks, k2) && hasKey(ks, kA) && hasKey(ks, kS)
-		det := fmt.Sprintf("stage window guards present: %v/%v, automatic mode: %v, after sowing: %v", hasKey(ks, k1), hasKey(ks, k2), hasKey(ks, kA), hasKey(ks, kS))
+		// "after sowing" alone is true on every day while the sowing day is still 0 (automatic sowing pending): the entry must be sown
+		kSown := stripCondVersions(mkCmp(cellP("GlobalVarsMain.SAAT", akf), PZero(), token.GTR, nil))
+		ok := hasKey(ks, k1) && hasKey(ks, k2) && hasKey(ks, kA) && hasKey(ks, kS) && hasKey(ks, kSown)
+		det := fmt.Sprintf("stage window guards present: %v/%v, automatic mode: %v, after sowing: %v, sowing day set: %v", hasKey(ks, k1), hasKey(ks, k2), hasKey(ks, kA), hasKey(ks, kS), hasKey(ks, kSown))
 		if len(e.Args) == 3 {
 			am := stripVersions(e.Args[2])
 			t := am.single()
